@@ -327,6 +327,90 @@ def explore_opseqs(ctx, real):
     compare(ctx, reqs, reals, 'operation sequence')
 
 
+def explore_aliasing(ctx, real):
+    """an ordered dictionary holds values, not places: after `set_attribute(a, get_attribute(b).yaml_node)`
+    the two keys hold equal values, and overwriting, removing or renaming one of them afterwards leaves the
+    other as it was; a Node fetched earlier with get_attribute() keeps showing what it showed.  The expected
+    state is computed on an OrderedDict alone (never read from yatiml)."""
+    yaml = real.yaml
+    rng = ctx.rng
+    for i in range(ctx.budget(400, 6000)):
+        node = N.gen_mapping(yaml, rng, depth=2, distinct=True, nkeys=rng.randint(2, 5))
+        if not distinct_str_keys(yaml, node):
+            continue
+        w = real.yatiml.Node(copy.deepcopy(node))
+        od = OrderedDict((k, ('node', N.canon_node(yaml, v, marks=False))) for k, v in
+                         ((kn.value, vn) for kn, vn in node.value))
+        held = []           # (Node wrapper fetched earlier, what it showed then)
+        log = []
+        bad = None
+        for _ in range(rng.randint(2, 7)):
+            keys = list(od.keys())
+            if not keys:
+                break
+            r = rng.random()
+            a = rng.choice(keys + ['fresh', 'zz'])
+            try:
+                if r < 0.35:
+                    b = rng.choice(keys)
+                    log.append(('copy', a, b))
+                    w.set_attribute(a, w.get_attribute(b).yaml_node)
+                    od[a] = od[b]
+                elif r < 0.7:
+                    v = rng.choice(SCALAR_VALUES)
+                    if isinstance(v, float):
+                        continue
+                    log.append(('set', a, v))
+                    w.set_attribute(a, v)
+                    od[a] = ('scalar', v)
+                elif r < 0.8 and a in od:
+                    log.append(('remove', a))
+                    w.remove_attribute(a)
+                    del od[a]
+                elif r < 0.9 and a in od:
+                    log.append(('hold', a))
+                    got = w.get_attribute(a)
+                    held.append((got, N.canon_node(yaml, got.yaml_node, marks=False)))
+                else:
+                    continue
+            except Exception as e:  # noqa
+                bad = 'raised {}: {}'.format(type(e).__name__, e)
+                break
+            # compare the whole state with the ordered dictionary
+            pairs = [(kn.value, vn) for kn, vn in w.yaml_node.value]
+            if [k for k, _ in pairs] != list(od.keys()):
+                bad = 'keys are {} but an ordered dict has {}'.format([k for k, _ in pairs], list(od.keys()))
+                break
+            for k, vn in pairs:
+                kind, want = od[k]
+                if kind == 'node':
+                    if N.canon_node(yaml, vn, marks=False) != want:
+                        bad = 'the value of {!r} changed to {!r} although that key was not assigned'.format(
+                            k, N.node_sexp(yaml, vn)[:80])
+                else:
+                    try:
+                        back = real.yatiml.Node(vn).get_value()
+                    except Exception as e:  # noqa
+                        back = 'raised ' + type(e).__name__
+                    if not (isinstance(vn, yaml.ScalarNode) and same_scalar(back, want)):
+                        bad = 'the value of {!r} reads {!r} but {!r} was assigned last'.format(k, back, want)
+                if bad:
+                    break
+            if bad:
+                break
+            for hw, shown in held:
+                if N.canon_node(yaml, hw.yaml_node, marks=False) != shown:
+                    bad = 'a Node fetched earlier with get_attribute() changed under its holder'
+                    break
+            if bad:
+                break
+        ctx.case(('aliasing', i), nontrivial=len(log) > 1)
+        ctx.count('aliasing_sequences')
+        if bad:
+            ctx.violation('ordered-map law broken after {}: {}'.format(log, bad),
+                          dict(key='aliasing:' + bad[:40], node=N.node_sexp(yaml, node)[:500], ops=repr(log)[:500]))
+
+
 def explore_scalars(ctx, real):
     """classification, set_value/get_value, get_value vs load for every spelling x tag"""
     yaml = real.yaml
@@ -498,6 +582,7 @@ def explore(ctx):
     explore_opseqs(ctx, real)
     explore_scalars(ctx, real)
     explore_defaults(ctx, real)
+    explore_aliasing(ctx, real)
 
 
 def search(ctx, broken):
